@@ -86,3 +86,19 @@ def Ok : List Tok → Fin → List (List Char) → List Char → Bool
   | .word _ _ :: _, _, [], _ => false
 
 end Shk.Tpl
+
+namespace Shk.Tpl
+open Shk.Re
+
+/-- the group numbers of a template, in the order of `capsOf` / `fieldsOf` -/
+def groupsOf : List Tok → Fin → List Nat
+  | [], .rest i _ => [i]
+  | [], _ => []
+  | .lit _ :: T, f => groupsOf T f
+  | .ws :: T, f => groupsOf T f
+  | .word i _ :: T, f => groupsOf T f ++ [i]
+
+/-- the piece `s[a..b)` -/
+def slice (s : List Char) (a b : Nat) : List Char := (s.drop a).take (b - a)
+
+end Shk.Tpl
